@@ -3,6 +3,7 @@ package main
 import (
 	"bufio"
 	"bytes"
+	"context"
 	"encoding/json"
 	"fmt"
 	"io"
@@ -481,9 +482,75 @@ func journalCase(dump string) int {
 	return k
 }
 
+// planOp runs one of a property's plan helpers (classify / narrow / without)
+// in a child process. These helpers rebuild the plan's artifact, which for
+// encoder-written files means running the library's encoder: the controller
+// must not do that in its own process, where a fatal error in the library
+// (checkptr, a corrupted heap) would take the whole check down with it.
+func planOp(p Property, op string, plan *Plan, k int) (string, *Plan) {
+	exe, err := os.Executable()
+	if err != nil {
+		return "", nil
+	}
+	in, err := json.Marshal(plan)
+	if err != nil {
+		return "", nil
+	}
+	ctx, cancel := context.WithTimeout(context.Background(), 120*time.Second)
+	defer cancel()
+	cmd := exec.CommandContext(ctx, exe, "planop", p.ID(), op, strconv.Itoa(k))
+	cmd.Stdin = bytes.NewReader(in)
+	out, err := cmd.Output()
+	if err != nil {
+		return "", nil
+	}
+	var r planOpReply
+	if json.Unmarshal(out, &r) != nil {
+		return "", nil
+	}
+	return r.Site, r.Plan
+}
+
+type planOpReply struct {
+	Site string `json:"site,omitempty"`
+	Plan *Plan  `json:"plan,omitempty"`
+}
+
+// planOpMain is the child side of planOp.
+func planOpMain(propID, op string, k int) int {
+	p, ok := properties[propID]
+	if !ok {
+		return 2
+	}
+	installRandSeam()
+	var plan Plan
+	if err := json.NewDecoder(os.Stdin).Decode(&plan); err != nil {
+		return 2
+	}
+	var r planOpReply
+	switch op {
+	case "classify":
+		if dc, ok := p.(deathClassifier); ok {
+			r.Site = dc.ClassifyDeath(&plan, k)
+		}
+	case "narrow":
+		if cn, ok := p.(caseNarrower); ok {
+			r.Plan = cn.NarrowCase(&plan, k)
+		}
+	case "without":
+		if cr, ok := p.(caseRemover); ok {
+			r.Plan = cr.WithoutCase(&plan, k)
+		}
+	}
+	if err := json.NewEncoder(os.Stdout).Encode(r); err != nil {
+		return 2
+	}
+	return 0
+}
+
 func classifyDeath(p Property, plan *Plan, dump, site string) string {
-	if dc, ok := p.(deathClassifier); ok {
-		if s := dc.ClassifyDeath(plan, journalCase(dump)); s != "" {
+	if _, ok := p.(deathClassifier); ok {
+		if s, _ := planOp(p, "classify", plan, journalCase(dump)); s != "" {
 			return s
 		}
 	}
@@ -505,7 +572,9 @@ func narrowByJournal(p Property, plan *Plan, dump string) *Plan {
 	if _, err := fmt.Sscanf(dump[i:], "@@CASE %d", &k); err != nil {
 		return nil
 	}
-	return cn.NarrowCase(plan, k)
+	_ = cn
+	_, q := planOp(p, "narrow", plan, k)
+	return q
 }
 
 func tail(s string, n int) string {
@@ -611,6 +680,7 @@ func ctlMain(propID, tier string) int {
 		violCount            int
 		knownCount           int
 		infra                []string
+		retried              []string
 		capped               bool
 		knownHits            Counter
 	}{sigs: map[string]bool{}, faults: Counter{}, probes: Counter{}, viol: map[string]*violationRec{}, knownHits: Counter{}}
@@ -629,7 +699,11 @@ func ctlMain(propID, tier string) int {
 			// a tree on which a property fails wholesale: two dozen failing
 			// plans say what two thousand would (each hang costs a CPU budget)
 			mu.Lock()
-			enough := agg.violCount-agg.knownCount >= 24
+			stopAfter := 24
+			if p.Race() {
+				stopAfter = 8 // reproducing a failure under the race detector costs far more
+			}
+			enough := agg.violCount-agg.knownCount >= stopAfter
 			mu.Unlock()
 			if enough {
 				return
@@ -657,13 +731,35 @@ func ctlMain(propID, tier string) int {
 				}
 				plan := p.Generate(seed, idx, tier)
 				res := c.exec(plan)
+				// Trouble that comes from the environment (a worker killed from
+				// outside, starved, not starting) says nothing about the code under
+				// test. The plan is run once more in a fresh worker; only trouble
+				// that repeats is reported (exit 2). The retry is counted in the
+				// evidence. A worker that panics or spins in the HARNESS is not
+				// retried: the library writes through unsafe pointers, and a harness
+				// crash after a plan that passed is how heap corruption shows (D14).
+				if res.Verdict == "infra" && transientInfra(res.Detail) {
+					first := res.Detail
+					c.close()
+					var err error
+					if c, err = startChild(p, childOpts{}); err == nil {
+						res = c.exec(plan)
+						mu.Lock()
+						agg.probes.Inc("plans-rerun-after-infrastructure-trouble")
+						if len(agg.retried) < 5 {
+							agg.retried = append(agg.retried, fmt.Sprintf("plan %d: %s", idx, head(first, 300)))
+						}
+						mu.Unlock()
+					}
+				}
 				// A case that killed the worker through a listed known finding
 				// must not cost the rest of the plan its execution: the plan
 				// is re-run without that case (bounded).
 				if cr, ok := p.(caseRemover); ok {
 					for retry := 0; retry < 6 && res.Verdict == "violation" && res.Narrow != nil && matchKnown(known, propID, res.key()) != nil; retry++ {
 						k := journalCaseOf(res)
-						rest := cr.WithoutCase(plan, k)
+						_ = cr
+						_, rest := planOp(p, "without", plan, k)
 						if rest == nil {
 							break
 						}
@@ -802,7 +898,21 @@ func ctlMain(propID, tier string) int {
 	if agg.capped {
 		fmt.Printf("note: wall-clock cap reached after %d of %d plans\n", agg.plans, n)
 	}
+	for _, r := range agg.retried {
+		fmt.Printf("note: re-run after infrastructure trouble: %s\n", strings.ReplaceAll(r, "\n", " | "))
+	}
 	return exit
+}
+
+// transientInfra: infrastructure verdicts caused by the environment rather
+// than by anything the worker itself did.
+func transientInfra(detail string) bool {
+	for _, p := range []string{"worker died without a Go crash report", "wall-clock budget exceeded", "worker not accepting plans", "worker blocked (no CPU, no progress) outside the library"} {
+		if strings.HasPrefix(detail, p) {
+			return true
+		}
+	}
+	return false
 }
 
 func countKnown(m map[string]*violationRec) int {
